@@ -84,6 +84,19 @@ class Depthwise2d(nn.Module):
         return self.fc(torch.flatten(y, 1))
 
 
+class Temporal(nn.Module):
+    """causally padded temporal convolution (receptive field and dilation are searchable) between two pointwise layers"""
+    def __init__(self):
+        super().__init__()
+        self.c0 = nn.Conv1d(1, 2, 1)
+        self.pad = nn.ConstantPad1d((2, 0), 0)
+        self.tc = nn.Conv1d(2, 2, 3)
+        self.head = nn.Conv1d(2, 1, 1)
+
+    def forward(self, x):
+        return self.head(self.tc(self.pad(self.c0(x))))
+
+
 class Activated(nn.Module):
     """an element-wise op between the last layer and the output: the last layer is still tied to the output"""
     def __init__(self):
@@ -103,7 +116,11 @@ NETS = {
     'concat': (Concat, (1, 2, 2), {'c0': 'free', 'c1': 'free', 'head': 'frozen'}, {'c0': None, 'c1': None, 'head': ['c0', 'c1']}),
     'depthwise2d': (Depthwise2d, (1, 1, 2, 2), {'c0': 'free', 'dw': '=c0', 'fc': 'frozen'}, {'c0': None, 'dw': ['c0'], 'fc': ('flatten', 'c0', 1)}),
     'activated': (Activated, (1, 2, 2), {'c0': 'free', 'c1': 'frozen'}, {'c0': None, 'c1': ['c0']}),
+    'temporal': (Temporal, (1, 1, 4), {'c0': 'free', 'tc': 'free', 'head': 'frozen'}, {'c0': None, 'tc': ['c0'], 'head': ['tc']}),
 }
+
+
+CAUSALLY_PADDED = {'temporal': ('tc',)}
 
 
 def _symbolic_state(H, net):
@@ -184,10 +201,19 @@ def h_search_export(H, net):
         if kind == 'free':
             a = layers[name].out_features_masker.alpha
             H.set_(a, H.tensor('alpha.' + name, H.shape(a)))
+        # receptive-field and dilation masks of temporal convolutions with more than one tap
+        # (only where the layer is causally padded, as the statement of C01 restricts)
+        tm = getattr(layers[name], 'timestep_masker', None)
+        if name in CAUSALLY_PADDED.get(net, ()) and H.type_name(tm) == 'PITTimestepMasker':
+            H.set_(tm.beta, H.tensor('beta.' + name, H.shape(tm.beta)))
+            dm = layers[name].dilation_masker
+            H.set_(dm.gamma, H.tensor('gamma.' + name, H.shape(dm.gamma)))
     model.eval()
     x = H.tensor('x', shape)
     summ = model.summary()
+    model.discrete_cost = True
     exported = model.export()                       # forks on every reachable mask pattern
+    cost = H.scalar(model.cost)
     # C09: what each layer is told about its input
     for name, feed in feeds.items():
         calc = layers[name].input_features_calculator
@@ -215,6 +241,14 @@ def h_search_export(H, net):
             H.ensure('export:no-layer-is-pruned-to-zero-width', out_w >= 1 and H.shape(m.weight)[1] >= 1)
             H.ensure('export:sizes-are-those-summary-reports', out_w == summ[n]['out_features'] and
                      H.shape(m.weight)[1] * (m.groups if H.type_name(m) != 'Linear' else 1) == summ[n]['in_features'])
+    # C04: the discrete parameter-count cost is the parameter count of the network export() returns
+    n_params = 0
+    for n, m in exported.named_modules():
+        if H.type_name(m) in ('Conv1d', 'Conv2d', 'Linear'):
+            n_params = n_params + m.weight.numel() + (m.bias.numel() if m.bias is not None else 0)
+    H.observe('cost', cost)
+    H.ensure('cost:discrete-params-cost-is-the-parameter-count-of-the-exported-network', H.eq(cost, n_params))
+    H.ensure('cost:reading-it-again-gives-the-same-value', H.eq(H.scalar(model.cost), cost))
     # C18: exporting is an observer of the NAS model
     H.ensure('export:model-output-unchanged-by-export', H.eq(model(x), y_nas))
 
@@ -231,8 +265,8 @@ _FUNCS = [_P + 'pit.py::PIT.__init__', _P + 'pit.py::PIT.export', _P + 'graph.py
 HARNESSES = [
     dict(name='whole-import', fn='h_import', property=['C07', 'C08', 'C11'], functions=_FUNCS,
          quick=[dict(net=n, training=t, fold_bn=f) for n, t, f in (('chain', True, False), ('chain', False, True), ('residual', True, False), ('residual-input', False, False),
-                                                                   ('concat', True, False), ('depthwise2d', False, False), ('activated', True, False))],
+                                                                   ('concat', True, False), ('depthwise2d', False, False), ('activated', True, False), ('temporal', True, False))],
          thorough=[dict(net=n, training=t, fold_bn=f) for n in NETS for t in _B for f in _B], timeout=120),
-    dict(name='whole-search-export', fn='h_search_export', property=['C01', 'C09', 'C08', 'C18'], functions=_FUNCS,
+    dict(name='whole-search-export', fn='h_search_export', property=['C01', 'C09', 'C08', 'C18', 'C04'], functions=_FUNCS,
          quick=[dict(net=n) for n in NETS], thorough=[dict(net=n) for n in NETS], timeout=120),
 ]
